@@ -391,6 +391,37 @@ def r2_implicit(ctx):
                          '' if ok else 'index into the token without a non-empty guard: a segment consisting of blanks is empty after lstrip() and raises IndexError')
     if nb < 1:
         raise AnalysisError('X12Reader.__iter__: token indexing not found')
+    # (k) text taken from a segment (get_value: None when the element is absent) or still at its initial None, kept in a
+    #     local of a driver: slicing it or calling a string method on it needs a truth / None test on the way, or a fence
+    for mod, qual in (('x12n_document', 'x12n_document'), ('x12context', 'X12ContextReader.iter_segments')):
+        fk = ctx.func(mod, qual)
+        gk = ctx.cfg(fk)
+        INk = must_facts(gk)
+        maybe_none = set()
+        for st in ast.walk(fk):
+            if isinstance(st, ast.Assign):
+                for t in st.targets:
+                    for nm in ([t] if isinstance(t, ast.Name) else [x for x in ast.walk(t) if isinstance(x, ast.Name)]):
+                        v = st.value
+                        if (isinstance(v, ast.Constant) and v.value is None) or (isinstance(v, ast.Call) and A.call_target(v)[1] == 'get_value'):
+                            maybe_none.add(nm.id)
+        nk = 0
+        for nd in gk.nodes:
+            for x in gk.walk_exprs(nd):
+                tgt = None
+                if isinstance(x, ast.Subscript) and isinstance(x.value, ast.Name) and x.value.id in maybe_none and isinstance(x.ctx, ast.Load):
+                    tgt = x.value.id
+                elif isinstance(x, ast.Call) and isinstance(x.func, ast.Attribute) and isinstance(x.func.value, ast.Name) \
+                        and x.func.value.id in maybe_none and x.func.attr in ('strip', 'rstrip', 'lstrip', 'upper', 'lower', 'startswith', 'endswith', 'split'):
+                    tgt = x.func.value.id
+                if tgt is None:
+                    continue
+                nk += 1
+                ok = has(INk[nd.id], 'NotNone', tgt) or '*' in _caught(fk, x) or 'TypeError' in _caught(fk, x)
+                yield Ob(km('(k) %s:%s %s' % (mod, qual, norm(x, 40))), ok, ctx.floc(fk, x),
+                         '' if ok else '`%s` may still be None here (no group seen yet, or the element is absent): TypeError escapes the entry point' % tgt)
+        if mod == 'x12n_document' and nk < 1:
+            raise AnalysisError('x12n_document: no use of segment text kept in locals found')
     # (c) int() on input text
     for mod in ('x12file', 'error_handler', 'x12n_document', 'x12context', 'map_walker'):
         m = ctx.mod(mod)
